@@ -117,11 +117,20 @@ class Gen:
                            dict(name='xid', type='ID', use='optional')])
         ref = dict(name='ref', simple='string',
                    attrs=[dict(name='rid', type='int', use='required'),
-                          dict(name='xref', type='IDREF', use='optional')])
-        inner = dict(kind='sequence', kids=[('g', g, 1, 1), ('e', item, 0, None), ('e', ref, 0, None)],
-                     mn=1, mx=1)
+                          dict(name='xref', type='IDREF', use='optional'),
+                          dict(name='dref', type='IDREF', use='optional', default='id1')])
+        self.idc_below = self.r.random() < .4
+        if self.idc_below:
+            # the key is declared on a child element (sec), the keyref on the root refers to it from above
+            sec = dict(name='sec', attrs=[], mixed=False, idc='key',
+                       model=dict(kind='sequence', kids=[('e', item, 0, None)], mn=1, mx=1))
+            inner = dict(kind='sequence', kids=[('g', g, 1, 1), ('e', sec, 1, 1), ('e', ref, 0, None)], mn=1, mx=1)
+            self.root['idc'] = 'keyref'
+        else:
+            inner = dict(kind='sequence', kids=[('g', g, 1, 1), ('e', item, 0, None), ('e', ref, 0, None)],
+                         mn=1, mx=1)
+            self.root['idc'] = True
         self.root['model'] = inner
-        self.root['idc'] = True
 
     # ---- rendering
     def tref(self, key):
@@ -147,9 +156,11 @@ class Gen:
         idc = ''
         if e.get('idc'):
             p = 't:' if (self.tns and self.qual) else ''
-            idc = ('<xs:key name="K"><xs:selector xpath="%sitem"/><xs:field xpath="@kid"/></xs:key>'
-                   '<xs:keyref name="KR" refer="%sK"><xs:selector xpath="%sref"/><xs:field xpath="@rid"/>'
-                   '</xs:keyref>' % (p, 't:' if self.tns else '', p))
+            tp = 't:' if self.tns else ''
+            key = '<xs:key name="K"><xs:selector xpath="%sitem"/><xs:field xpath="@kid"/></xs:key>' % p
+            kref = ('<xs:keyref name="KR" refer="%sK"><xs:selector xpath="%sref"/><xs:field xpath="@rid"/></xs:keyref>'
+                    % (tp, p))
+            idc = {True: key + kref, 'key': key, 'keyref': kref}[e['idc']]
         return '<xs:element name="%s"%s><xs:complexType%s>%s%s</xs:complexType>%s</xs:element>' % (
             e['name'], occ, m, self.x_group(e['model']), a, idc)
 
@@ -228,15 +239,16 @@ class Gen:
         return r.randint(mn, hi)
 
     def _fix_idc(self, root, r):
-        items = [k for k in root['kids'] if k['name'] == 'item']
+        holder = next((k for k in root['kids'] if k['name'] == 'sec'), root)
+        items = [k for k in holder['kids'] if k['name'] == 'item']
         refs = [k for k in root['kids'] if k['name'] == 'ref']
         for i, it in enumerate(items):
             it['attrs']['kid'] = r.choice(['%d', '0%d', '+%d']) % (i + 1)
-            if r.random() < .5:
+            if r.random() < .5 or i == 0:      # id1 always exists: ref/@dref defaults to it
                 it['attrs']['xid'] = 'id%d' % (i + 1)
         ids = [it['attrs']['xid'] for it in items if 'xid' in it['attrs']]
         if not items:
-            del root['kids'][len(root['kids']) - len(refs):]
+            root['kids'] = [k for k in root['kids'] if k['name'] != 'ref']
             refs = []
         for rf in refs:
             rf['attrs']['rid'] = str(r.randint(1, len(items)))
@@ -298,7 +310,7 @@ def depth_of(n):
 # ---------------------------------------------------------------------------------------- faults
 
 FAULT_KINDS = ['bad_value', 'bad_attr', 'missing_attr', 'extra_attr', 'extra_child', 'missing_child',
-               'misplaced_child', 'dup_key', 'dangling_keyref', 'dup_id', 'dangling_idref']
+               'misplaced_child', 'stray_text', 'dup_key', 'dangling_keyref', 'dup_id', 'dangling_idref', 'dangling_default_idref']
 
 
 def applicable_faults(gen, tree):
@@ -318,6 +330,10 @@ def applicable_faults(gen, tree):
                 if a['use'] == 'required':
                     out.append(('missing_attr', path, a['name']))
         out.append(('extra_attr', path, 'zzattr'))
+        if 'model' in d and not d.get('mixed') and n['kids']:
+            out.append(('stray_text', path, len(n['kids']) - 1))
+            if len(n['kids']) > 1:
+                out.append(('stray_text', path, 0))
         if 'model' in d:
             out.append(('extra_child', path, len(n['kids'])))
             if n['kids']:
@@ -330,17 +346,21 @@ def applicable_faults(gen, tree):
                 if i + 1 < len(w) and w[i] != w[i + 1] and not A.accepts(w[:i] + [w[i + 1], w[i]] + w[i + 2:]):
                     out.append(('misplaced_child', path, i))
     if tree['decl'].get('idc'):
-        items = [i for i, k in enumerate(tree['kids']) if k['name'] == 'item']
-        refs = [i for i, k in enumerate(tree['kids']) if k['name'] == 'ref']
+        hp = next(((i,) for i, k in enumerate(tree['kids']) if k['name'] == 'sec'), ())
+        holder = get(tree, hp)
+        items = [hp + (i,) for i, k in enumerate(holder['kids']) if k['name'] == 'item']
+        refs = [(i,) for i, k in enumerate(tree['kids']) if k['name'] == 'ref']
         if len(items) >= 2:
-            out.append(('dup_key', (items[1],), tree['kids'][items[0]]['attrs']['kid']))
+            out.append(('dup_key', items[1], get(tree, items[0])['attrs']['kid']))
         if refs:
-            out.append(('dangling_keyref', (refs[0],), '9999'))
-        withid = [i for i in items if 'xid' in tree['kids'][i]['attrs']]
+            out.append(('dangling_keyref', refs[0], '9999'))
+        withid = [p for p in items if 'xid' in get(tree, p)['attrs']]
         if len(withid) >= 2:
-            out.append(('dup_id', (withid[1],), tree['kids'][withid[0]]['attrs']['xid']))
+            out.append(('dup_id', withid[1], get(tree, withid[0])['attrs']['xid']))
         if refs:
-            out.append(('dangling_idref', (refs[0],), 'nosuchid'))
+            out.append(('dangling_idref', refs[0], 'nosuchid'))
+        if refs and items and any('dref' not in get(tree, p)['attrs'] for p in refs):
+            out.append(('dangling_default_idref', items[0], None))
     return out
 
 
@@ -361,6 +381,8 @@ def apply_fault(tree, fault):
         n['kids'].insert(detail, dict(ns=n['ns'], name='zzz', attrs={}, text=None, kids=[], decl={}))
     elif kind == 'missing_child':
         del n['kids'][detail]
+    elif kind == 'stray_text':
+        n['kids'][detail]['tail'] = 'stray text'
     elif kind == 'misplaced_child':
         n['kids'][detail], n['kids'][detail + 1] = n['kids'][detail + 1], n['kids'][detail]
     elif kind == 'dup_key':
@@ -371,6 +393,8 @@ def apply_fault(tree, fault):
         n['attrs']['xid'] = detail
     elif kind == 'dangling_idref':
         n['attrs']['xref'] = detail
+    elif kind == 'dangling_default_idref':
+        n['attrs']['xid'] = 'other'        # id1 disappears: the defaulted ref/@dref dangles
     return t
 
 
@@ -407,9 +431,10 @@ def xsd_components(g):
         idc = ''
         if e.get('idc'):
             q = 't:' if (g.tns and g.qual) else ''
-            idc = ('<xs:key name="K"><xs:selector xpath="%sitem"/><xs:field xpath="@kid"/></xs:key><xs:keyref '
-                   'name="KR" refer="%sK"><xs:selector xpath="%sref"/><xs:field xpath="@rid"/></xs:keyref>'
-                   % (q, p, q))
+            key = '<xs:key name="K"><xs:selector xpath="%sitem"/><xs:field xpath="@kid"/></xs:key>' % q
+            kref = ('<xs:keyref name="KR" refer="%sK"><xs:selector xpath="%sref"/><xs:field xpath="@rid"/></xs:keyref>'
+                    % (p, q))
+            idc = {True: key + kref, 'key': key, 'keyref': kref}[e['idc']]
         if idc:
             return '<xs:element name="%s" type="%s%s"%s%s>%s</xs:element>' % (e['name'], p, tname, occ, nil, idc)
         return '<xs:element name="%s" type="%s%s"%s%s/>' % (e['name'], p, tname, occ, nil)
